@@ -205,10 +205,13 @@ def expected_values(nodes):
         elif x.kind == "expr":
             ok = all(ev(r) for r in expr_refs(x.payload))
             if ok:
-                try:
-                    env[nm] = expr_eval(x.payload, env)
-                except ZeroDivisionError:
-                    env[nm] = "ZERODIV"
+                if any(isinstance(env[r], str) and env[r] == "ZERODIV" for r in expr_refs(x.payload)):
+                    env[nm] = "ZERODIV"          # builds on a division by zero: the whole graph is discarded
+                else:
+                    try:
+                        env[nm] = expr_eval(x.payload, env)
+                    except ZeroDivisionError:
+                        env[nm] = "ZERODIV"
         else:
             ok = False
         state[nm] = 2
